@@ -22,7 +22,7 @@ META = {
             "3 families as Addresses or Endpoints, empty lists, resolver errors, ExitIdle by call or by idle picker, timer expiry through "
             "the internal.TimeAfterFunc seam, sub-channel and health state changes) are executed on the real policy with a recording "
             "ClientConn; TLC validates every step. deDupAddresses/interleaveAddresses are compared with the TLA+ reference on all lists "
-            "of <= 4 addresses over 7 addresses of 3 families (thorough: <= 5 addresses over 5 addresses of 3 families).",
+            "of <= 4 addresses over 9 addresses of 3 families, two of which share the Addr string of another one and differ only in Attributes resp. ServerName (thorough: <= 5 addresses over 5 of them incl. both pairs).",
     "note": "Shuffling is off (it is a random permutation applied before the pre-processing). CONNECTING->IDLE of a sub-channel is "
             "treated like the code documents it (a connection that was established and lost), it ends sticky TF; an empty address list "
             "also ends it (no address is left that failed). The order clause is judged against the specification's happy-eyeballs "
@@ -97,7 +97,7 @@ def run(ctx):
     # reference-oracle sub-check of the address pre-processing: every list of <= n addresses
     ppath = os.path.join(ctx.run, "trace-pre.ndjson")
     n = ctx.pick(4, 5)
-    ctx.driver(binary, "TestVerifC34Preprocess", {"VERIF_OUT": ppath, "VERIF_N": n, "VERIF_UNIVERSE": ctx.pick(7, 5)})
+    ctx.driver(binary, "TestVerifC34Preprocess", {"VERIF_OUT": ppath, "VERIF_N": n, "VERIF_UNIVERSE_IDS": ctx.pick("1,2,3,4,5,6,7,8,9", "1,2,4,8,9")})
     npre = sum(1 for _ in open(ppath)) - 1
     ctx.count({"preprocess_lists_up_to": n}, n=npre)
     # behaviours from the state graph (of the specification that follows the code, Quirk = 1)
